@@ -27,6 +27,21 @@ func main() {
 		cmdEffects(os.Args[2:])
 	case "list":
 		cmdList()
+	case "baseline":
+		// prints the function list of the tree (used once, on the pinned tree, to freeze baseline_funcs.txt)
+		d, err := listDecls(repoRoot())
+		if err != nil {
+			fmt.Fprintln(os.Stderr, err)
+			os.Exit(2)
+		}
+		var ks []string
+		for k := range d {
+			ks = append(ks, k)
+		}
+		sort.Strings(ks)
+		for _, k := range ks {
+			fmt.Println(k)
+		}
 	case "mutate":
 		os.Exit(cmdMutate(os.Args[2:]))
 	default:
